@@ -3,6 +3,12 @@ import PyYetiVerif.Props.C13Text
 import PyYetiVerif.Props.C13Dmig
 import PyYetiVerif.Props.C13Grid
 import PyYetiVerif.Props.C13Cord
+import PyYetiVerif.Props.C13DmigX
+import PyYetiVerif.Props.C13Fmt
+import PyYetiVerif.Props.C13Multi
+import PyYetiVerif.Props.C13Values
+import PyYetiVerif.Props.C13Uset
+import PyYetiVerif.Props.C13Set
 #print axioms PyYetiVerif.C13.thru_roundtrip
 #print axioms PyYetiVerif.C13.thru_maximal
 #print axioms PyYetiVerif.C13.nasints_layout
@@ -42,3 +48,36 @@ import PyYetiVerif.Props.C13Cord
 #print axioms PyYetiVerif.C13.grid_roundtrip
 #print axioms PyYetiVerif.C13.cord2_roundtrip
 #print axioms PyYetiVerif.C13.uset_roundtrip
+#print axioms PyYetiVerif.C13.rddmig_default_is_plain
+#print axioms PyYetiVerif.C13.rddmig_options_same_cells
+#print axioms PyYetiVerif.C13.rddmig_square_index
+#print axioms PyYetiVerif.C13.rddmig_expanded_index
+#print axioms PyYetiVerif.C13.rddmig_expanded_spec
+#print axioms PyYetiVerif.C13.rddmig_square_spec
+#print axioms PyYetiVerif.C13.rddmig_options_on_lines
+#print axioms PyYetiVerif.C13.bulk_format_widths_ok
+#print axioms PyYetiVerif.C13.dmig_lines_are_templates
+#print axioms PyYetiVerif.C13.grid_card_is_template
+#print axioms PyYetiVerif.C13.cord_card_is_template
+#print axioms PyYetiVerif.C13.nasints_is_template
+#print axioms PyYetiVerif.C13.set_tokens_are_templates
+#print axioms PyYetiVerif.C13.tabled1_is_template
+#print axioms PyYetiVerif.C13.readers_independent
+#print axioms PyYetiVerif.C13.typed_readers_independent
+#print axioms PyYetiVerif.C13.sets_in_file
+#print axioms PyYetiVerif.C13.wtset_is_segment
+#print axioms PyYetiVerif.C13.real_field_reads
+#print axioms PyYetiVerif.C13.real_field_accuracy
+#print axioms PyYetiVerif.C13.real_field_clean
+#print axioms PyYetiVerif.C13.tabled1_roundtrip_values
+#print axioms PyYetiVerif.C13.grid_roundtrip_values
+#print axioms PyYetiVerif.C13.cord2_roundtrip_values
+#print axioms PyYetiVerif.C13.dmig_roundtrip_values
+#print axioms PyYetiVerif.C13.dmig_lines_int_instance
+#print axioms PyYetiVerif.C13.uset_bulk_roundtrip_labels
+#print axioms PyYetiVerif.C13.uset_bulk_roundtrip_labels_full
+#print axioms PyYetiVerif.C13.set_header_split_fails
+#print axioms PyYetiVerif.C13.set_roundtrip_iff_partial
+#print axioms PyYetiVerif.C13.dmig_field_fits
+#print axioms PyYetiVerif.C13.dmig_terms_in_range
+#print axioms PyYetiVerif.C13.tabled1_field_overflow_counterexample
